@@ -36,6 +36,11 @@ verus_unit("merklev", "merklev", ["C10"], ["MerkleTree::prove (every tree size /
             "MerkleTree::verify (length check; accepts iff the fold of the path along the index bits equals the root)", "MerkleTree::root",
             "lemma: verify(root(), i, prove(i)) accepts for every well-formed tree"])
 
+verus_unit("coinv", "coinv", ["C19", "C04"], [
+    "DefaultRandomCoin::next", "DefaultRandomCoin::new", "DefaultRandomCoin::reseed", "DefaultRandomCoin::check_leading_zeros",
+    "DefaultRandomCoin::draw (first accepted of at most 1000 candidates; counter advances by the candidates tried)",
+    "DefaultRandomCoin::draw_integers (every requested count: exactly n values below the domain size, value i from merge_with_int(seed', i + 1), counter' == n; Err above 1000)"])
+
 native_unit("merkle_native", "winter-crypto", "crypto", "native/merkle_bounded.rs", ["C10", "C06", "C03"],
             ["MerkleTree::prove_batch", "MerkleTree::verify_batch", "BatchMerkleProof::get_root", "BatchMerkleProof::into_paths",
              "BatchMerkleProof::from_paths", "merkle::map_indexes", "merkle::normalize_indexes"],
